@@ -77,6 +77,39 @@ struct StateProp : Prop {
 				}
 				pre.push(op);
 				ph.set("pre", pre);
+			} else if (is_c08 && x < 25 && !w.trains.empty()) {
+				// storm: one segment's address list is rewritten again and again while readers ask for the position of the train concerned
+				std::vector<std::pair<const cfg::Board *, const cfg::Segment *>> sgs;
+				for (auto &b : w.boards) if (b.present) for (auto &g : b.segs) sgs.push_back({&b, &g});
+				if (sgs.empty()) continue;
+				auto sg = sgs[r.below(sgs.size())];
+				const cfg::Train &tr = w.trains[r.below(w.trains.size())];
+				J ev = J::arr(); int t = 0;
+				for (int k = 0, n = (int) r.range(4, 14); k < n; k++) {
+					J e = J::obj(); e.set("at_us", t); e.set("node", pc::jaddr(sg.first->addr)); e.set("type", (int) MSG_BM_ADDRESS);
+					J d = J::arr(); d.push((int) sg.second->addr);
+					uint64_t y = r.below(100);
+					if (y < 25) { d.push(0); d.push(0); }
+					else { d.push((int) tr.addrl); d.push((int) ((tr.addrh & 0x3F) | (r.coin() ? 0x80 : 0))); if (y > 70 && w.trains.size() > 1) { const cfg::Train &t2 = w.trains[r.below(w.trains.size())]; d.push((int) t2.addrl); d.push((int) (t2.addrh & 0x3F)); } }
+					e.set("data", d); ev.push(e);
+					t += (int) r.range(0, 2) * 5000;
+				}
+				ph.set("bus", ev);
+				int nt = (int) r.range(1, 3); maxt = std::max(maxt, nt);
+				J tasks = J::arr();
+				for (int q = 0; q < nt; q++) {
+					J ops = J::arr();
+					for (int k = 0, no = (int) r.range(6, 24); k < no; k++) {
+						J g = J::obj(); J s = J::arr();
+						uint64_t y = r.below(100);
+						if (y < 55) { g.set("op", "get"); g.set("fn", "train_position"); s.push(tr.id); }
+						else if (y < 80) { g.set("op", "get"); g.set("fn", "train_on_track"); s.push(tr.id); }
+						else { g.set("op", "sleep"); g.set("us", 5000); }
+						g.set("s", s); g.set("i", J::arr()); ops.push(g);
+					}
+					tasks.push(ops);
+				}
+				ph.set("tasks", tasks);
 			} else {
 				J ev = J::arr();
 				J e;
@@ -134,6 +167,7 @@ struct StateProp : Prop {
 	void attach(Engine &e) override {
 		model = sm::Model(); model.init(cfg::from_json(e.plan["world"]));
 		wire_pos = frame_pos = ops_pos = 0; checks = corrupted_seen = span2 = shared2 = snapshot_checks = snapshot_skipped = 0; seg_log.clear(); receiver = -1;
+		vers.clear(); pending_reads.clear(); reader_results_judged = reader_results_overlapping_update = 0; before_wire = nullptr;
 		g_seg_log = &seg_log; sim::hooks().on_lock = seg_lock_hook;
 	}
 	void before_stop(Engine &, int) override { g_seg_log = nullptr; sim::hooks().on_lock = nullptr; }
@@ -148,12 +182,54 @@ struct StateProp : Prop {
 			if (!has_w && !has_f) break;
 			uint64_t ws = has_w ? e.bus.wire[wire_pos].step : UINT64_MAX, fs = has_f ? e.bus.done[frame_pos].last_read_step : UINT64_MAX;
 			if (ws <= fs) { if (before_wire && wire_pos >= before_wire_from) { before_wire(); before_wire = nullptr; } model.apply_downlink(e.bus.wire[wire_pos].msg); wire_pos++; }
-			else { for (auto &m : e.bus.done[frame_pos].msgs) model.apply_uplink(m); frame_pos++; }
+			else {
+				for (auto &m : e.bus.done[frame_pos].msgs) model.apply_uplink(m);
+				if (is_c08 && !vers.empty()) { vers.back().end = e.bus.done[frame_pos].processed_step; Ver v; v.start = e.bus.done[frame_pos].last_read_step; v.pos = presence_now(); vers.push_back(v); }
+				frame_pos++;
+			}
 		}
 	}
 	// optimistic effect of a command that is not carried by its message: takes place before the command's own message (and thus
 	// before any answer to it), even if the calling thread returns only after the answer has been processed
 	std::function<void()> before_wire; size_t before_wire_from = 0;
+
+	// ---- C08, concurrent readers: presence versions. Version k = presence as of uplink frame k; it can be what a reader sees from the
+	// delivery of frame k (start) until frame k+1 is known to be processed (end). A reader's result must equal some version whose
+	// window overlaps the call: the updates are atomic under the library's locks, anything else is a torn or stale view.
+	struct Ver { uint64_t start = 0, end = UINT64_MAX; std::map<std::string, std::vector<std::string>> pos; };
+	std::vector<Ver> vers;
+	struct PendingRead { std::string fn, train; J result; uint64_t inv, ret; };
+	std::vector<PendingRead> pending_reads;
+	uint64_t reader_results_judged = 0, reader_results_overlapping_update = 0;
+	std::map<std::string, std::vector<std::string>> presence_now() {
+		std::map<std::string, std::vector<std::string>> p;
+		for (auto &t : model.w.trains) { std::vector<std::string> segs; for (auto &b : model.w.boards) for (auto &g : b.segs) for (auto &a : model.sg[g.id].addrs) if (a[0] == t.addrl && a[1] == t.addrh) segs.push_back(g.id); std::sort(segs.begin(), segs.end()); segs.erase(std::unique(segs.begin(), segs.end()), segs.end()); p[t.id] = segs; }
+		return p;
+	}
+	void judge_readers(Engine &e) {
+		for (auto &pr : pending_reads) {
+			if (!model.w.train(pr.train)) continue;
+			std::vector<const Ver *> cand;
+			for (auto &v : vers) if (v.start <= pr.ret && v.end >= pr.inv) cand.push_back(&v);
+			if (cand.empty()) continue;
+			reader_results_judged++;
+			if (cand.size() > 1) reader_results_overlapping_update++;
+			bool ok = false; std::string allowed;
+			std::vector<std::string> got;
+			if (pr.fn == "train_position") { for (size_t i = 0; i < pr.result["segments"].size(); i++) got.push_back(pr.result["segments"][i].str()); std::sort(got.begin(), got.end()); got.erase(std::unique(got.begin(), got.end()), got.end()); }
+			for (const Ver *v : cand) {
+				const auto &segs = v->pos.at(pr.train);
+				if (pr.fn == "train_position" ? got == segs : pr.result.getb("v") == !segs.empty()) ok = true;
+				allowed += "["; for (auto &x : segs) allowed += x + " "; allowed += "] ";
+			}
+			if (!ok) {
+				std::string g; if (pr.fn == "train_position") { g = "["; for (auto &x : got) g += x + " "; g += "]"; } else g = pr.result.getb("v") ? "true" : "false";
+				e.violate("READER_SAW_IMPOSSIBLE_PRESENCE", "bidib_get_" + pr.fn, "concurrent bidib_get_" + pr.fn + "(" + pr.train + ") (steps " + std::to_string(pr.inv) + ".." + std::to_string(pr.ret) + ") returned " + g +
+				          ", but the segment listings that held at any moment of the call put the train on " + allowed + "- a torn or stale view of the address lists");
+			}
+		}
+		pending_reads.clear();
+	}
 
 	void on_session_start(Engine &e, int, int ret) override {
 		if (ret != 0) return;
@@ -178,6 +254,10 @@ struct StateProp : Prop {
 
 	void after_op(Engine &e, OpRec &o) override {
 		const std::string &k = o.op->gets("op");
+		if (is_c08 && k == "get" && (o.op->gets("fn") == "train_position" || o.op->gets("fn") == "train_on_track") && (*o.op)["s"].size() > 0 && (*o.op)["s"][0].is_str()) {
+			if (vers.empty()) { ingest(e); Ver v; v.pos = presence_now(); vers.push_back(v); }
+			pending_reads.push_back(PendingRead{o.op->gets("fn"), (*o.op)["s"][0].str(), o.result, o.inv_step, o.ret_step});
+		}
 		if (k == "hl" && o.ret == 0) {
 			const std::string &fn = o.op->gets("fn");
 			const J &s = (*o.op)["s"];
@@ -258,6 +338,7 @@ struct StateProp : Prop {
 
 	void at_quiescence(Engine &e, int s, int p) override {
 		ingest(e);
+		if (is_c08) { if (vers.empty()) { Ver v; v.pos = presence_now(); vers.push_back(v); } judge_readers(e); }
 		if (e.plan["sessions"][(size_t) s]["phases"][(size_t) p].getb("check")) compare(e, p == 0 ? "after start-up" : "after a feedback message / command");
 	}
 
@@ -266,7 +347,7 @@ struct StateProp : Prop {
 		f.set("shape", (long long) (pc::shape_hash(e.plan) >> 1));
 		J p = J::obj(); p.set("state_comparisons", (long long) checks); p.set("unknown_target_messages", (long long) model.unknown_targets); p.set("list_valued_messages", (long long) model.list_valued);
 		p.set("corrupted_copies_delivered", (long long) corrupted_seen);
-		if (is_c08) { p.set("train_spanning_two_segments", (long long) span2); p.set("segment_with_two_addresses", (long long) shared2); p.set("consistent_snapshots_checked", (long long) snapshot_checks); p.set("snapshots_overlapping_an_update", (long long) snapshot_skipped); }
+		if (is_c08) { p.set("train_spanning_two_segments", (long long) span2); p.set("segment_with_two_addresses", (long long) shared2); p.set("consistent_snapshots_checked", (long long) snapshot_checks); p.set("concurrent_presence_results_judged", (long long) reader_results_judged); p.set("concurrent_presence_results_overlapping_an_update", (long long) reader_results_overlapping_update); p.set("snapshots_overlapping_an_update", (long long) snapshot_skipped); }
 		f.set("probes", p);
 	}
 };
